@@ -804,6 +804,10 @@ func (c *SpecCtx) call(x *SExpr) Value {
 		}
 		kv := c.eval(x.Args[1])
 		return boolV(mkSelect(arr, e.flatten(kv)[0]))
+	case "aput":
+		// aput(x, lo, width, v): the [N]byte value x with the little-endian bytes of v at lo
+		e.declAput()
+		return scInt(sx("|aput!|", e.flatten(c.eval(x.Args[0]))[0], c.intTerm(c.eval(x.Args[1])), c.intTerm(c.eval(x.Args[2])), c.intTerm(c.eval(x.Args[3]))))
 	case "afrom":
 		e.declBytesFuncs()
 		return scInt(sx("|afrom!|", c.intTerm(c.eval(x.Args[0])), c.intTerm(c.eval(x.Args[1])), e.flatten(c.eval(x.Args[2]))[0]))
